@@ -129,7 +129,8 @@ def xyz_to_lonlat(x, y, z):
     x, y, z = x / n, y / n, z / n
     if abs(z) >= 1.0:
         return (0.0, math.copysign(90.0, z))
-    return (math.degrees(math.atan2(y, x)), math.degrees(math.asin(z)))
+    # atan2 form: well conditioned next to the poles (asin is not)
+    return (math.degrees(math.atan2(y, x)), math.degrees(math.atan2(z, math.hypot(x, y))))
 
 
 def gen_amesh(rng, max_ops=8, tri_only=False, closed_only=False, partial=None):
@@ -183,6 +184,43 @@ def gen_amesh(rng, max_ops=8, tri_only=False, closed_only=False, partial=None):
             am.xyz[i] = lonlat_to_xyz(0.0, am.lat[i])
             am.name += ",lon0"
     return am
+
+
+def polar_mesh(rng, colat=None, south=None, k=None, centre=None):
+    """corners NEAR a pole (0.02 .. 1 degree away: outside the library's documented snap zone |z| > 1 - 1e-8,
+    about 8e-3 degrees), optionally one corner exactly AT the pole: a fan of triangles around the pole, or the
+    polar ring as one k-gon, plus one more ring of quads further out"""
+    colat = rng.choice([0.02, 0.05, 0.1, 0.25, 0.5, 1.0]) * rng.uniform(1.0, 1.3) if colat is None else colat
+    south = rng.random() < 0.5 if south is None else south
+    k = rng.randrange(3, 9) if k is None else k
+    centre = rng.random() < 0.5 if centre is None else centre
+    sg = -1.0 if south else 1.0
+    lon0 = rng.uniform(-180.0, 180.0)
+    lons = [((lon0 + 360.0 * i / k + 180.0) % 360.0) - 180.0 for i in range(k)]
+    if south:
+        lons = lons[::-1]
+    lon, lat, faces = [], [], []
+    ring1 = list(range(k))
+    lon += lons
+    lat += [sg * (90.0 - colat)] * k
+    ring2 = list(range(k, 2 * k))
+    lon += lons
+    lat += [sg * (90.0 - colat - rng.uniform(0.5, 3.0))] * k
+    if centre:
+        c = 2 * k
+        lon.append(0.0)
+        lat.append(sg * 90.0)
+        faces += [[c, ring1[i], ring1[(i + 1) % k]] for i in range(k)]
+    else:
+        faces.append(list(ring1))
+    faces += [[ring1[i], ring2[i], ring2[(i + 1) % k], ring1[(i + 1) % k]] for i in range(k)]
+    return AMesh(faces, lon, lat, name="polar%s%d@%.3f%s" % ("S" if south else "N", k, colat, "+c" if centre else ""))
+
+
+def regional(am, lon0, lat0, dlon, dlat):
+    """the same topology squeezed into a lon/lat box (so that projected CRSs such as a UTM zone apply)"""
+    return AMesh(am.faces, [lon0 + (v / 180.0) * dlon for v in am.lon], [lat0 + (v / 90.0) * dlat for v in am.lat],
+                 name=am.name + ",regional", closed=False)
 
 
 def add_orphan0(am):
@@ -925,7 +963,7 @@ def build_icon(am, d, rng):
 # GeoJSON / shapefile: one face per polygon exterior ring; multipolygons contribute one face per part
 
 def geo_dialect(rng, am, force=None):
-    d = {"kind": "geojson", "multi": rng.choice([0, 0, 1, 2]), "closing": True}
+    d = {"kind": "geojson", "multi": rng.choice([0, 0, 1, 2]), "closing": True, "crs": 4326}
     if force:
         d.update(force)
     return d
@@ -946,9 +984,19 @@ def build_geo(am, d, rng, path):
         else:
             feats.append([faces[i]])
             i += 1
-    ring = lambda f: [[am.lon[v], am.lat[v]] for v in am.faces[f]] + [[am.lon[am.faces[f][0]], am.lat[am.faces[f][0]]]]
+    crs = d.get("crs", 4326)                 # EPSG code, or None = no CRS recorded in the file
+    fwd = inv = None
+    if crs not in (None, 4326):
+        import pyproj
+        fwd = pyproj.Transformer.from_crs(4326, crs, always_xy=True).transform
+        inv = pyproj.Transformer.from_crs(crs, 4326, always_xy=True).transform
+    pt = lambda v: list(fwd(am.lon[v], am.lat[v])) if fwd else [am.lon[v], am.lat[v]]
+    back = lambda x, y: tuple(float(c) for c in inv(x, y)) if inv else (float(x), float(y))
+    ring = lambda f: [pt(v) for v in am.faces[f]] + [pt(am.faces[f][0])]
     if d["kind"] == "geojson":
         fc = {"type": "FeatureCollection", "features": []}
+        if crs not in (None, 4326):
+            fc["crs"] = {"type": "name", "properties": {"name": "urn:ogc:def:crs:EPSG::%d" % crs}}
         for ft in feats:
             if len(ft) == 1:
                 geom = {"type": "Polygon", "coordinates": [ring(ft[0])]}
@@ -957,13 +1005,13 @@ def build_geo(am, d, rng, path):
             fc["features"].append({"type": "Feature", "properties": {"id": len(fc["features"])}, "geometry": geom})
         with open(path, "w") as fh:
             json.dump(fc, fh)
-        # independent decoding of the file just written
+        # independent decoding of the file just written (json + pyproj inverse of the declared CRS)
         src = json.load(open(path))
         decoded = []
         for ft in src["features"]:
             g = ft["geometry"]
             polys = [g["coordinates"]] if g["type"] == "Polygon" else g["coordinates"]
-            decoded.append([[(float(x), float(y)) for x, y in p[0][:-1]] for p in polys])
+            decoded.append([[back(x, y) for x, y in p[0][:-1]] for p in polys])
     else:
         import geopandas as gpd
         from shapely.geometry import Polygon, MultiPolygon
@@ -971,8 +1019,9 @@ def build_geo(am, d, rng, path):
         for ft in feats:
             ps = [Polygon(ring(f)) for f in ft]
             geoms.append(ps[0] if len(ps) == 1 else MultiPolygon(ps))
-        gpd.GeoDataFrame({"id": list(range(len(geoms)))}, geometry=geoms, crs="EPSG:4326").to_file(path)
-        # independent decoding: raw geometry through pyogrio (not geopandas/uxarray)
+        gpd.GeoDataFrame({"id": list(range(len(geoms)))}, geometry=geoms,
+                         crs=(None if crs is None else "EPSG:%d" % crs)).to_file(path)
+        # independent decoding: raw geometry through pyogrio (not geopandas/uxarray) + pyproj inverse
         import pyogrio
         import shapely
         _, _, geom_wkb, _ = pyogrio.raw.read(path)
@@ -980,7 +1029,7 @@ def build_geo(am, d, rng, path):
         for wkb in geom_wkb:
             g = shapely.from_wkb(wkb)
             polys = [g] if g.geom_type == "Polygon" else list(g.geoms)
-            decoded.append([[(float(x), float(y)) for x, y in list(p.exterior.coords)[:-1]] for p in polys])
+            decoded.append([[back(x, y) for x, y in list(p.exterior.coords)[:-1]] for p in polys])
     face_pos = [r for ft in decoded for r in ft]
     ring_free = False
     ex = Expect.__new__(Expect)
@@ -988,6 +1037,9 @@ def build_geo(am, d, rng, path):
     ex.aux = {}
     ex.n_node = sum(len(r) for r in face_pos)
     ex.ring_free = ring_free
+    ex.tol = 1e-9 if crs in (None, 4326) else 1e-6       # projection round trip
+    # the decoded positions must also be the ones the polygons were generated from (lon/lat), up to ring start
+    ex.generated = [[(am.lon[v], am.lat[v]) for v in am.faces[f]] for ft in feats for f in ft]
     # image: per feature the list of ring sizes
     image = {"features": [[len(r) for r in ft] for ft in decoded]}
     ex.multi_parts = [len(ft) for ft in decoded]
